@@ -92,6 +92,13 @@ def model_driver_path(fam="kick"):
 class Ctx:
     def __init__(self, pid, tier, seed, level="proof"):
         self.pid, self.tier, self.seed, self.level = pid, tier, seed, level
+        # generated files whose failing translator may be downgraded to the correspondence in this check (DESIGN 2.2 / 10.8):
+        # lib/downgradable.json, decided by the experiment described there
+        try:
+            with open(os.path.join(os.path.dirname(os.path.abspath(__file__)), "downgradable.json")) as f:
+                self.downgradable = set(json.load(f).get(pid, []))
+        except (OSError, ValueError):
+            self.downgradable = set()
         self.rng = random.Random(seed * 1000003 + int(hashlib.sha1(pid.encode()).hexdigest()[:6], 16))
         self.t0 = time.time()
         self.evaluations = 0
